@@ -102,17 +102,23 @@ type Contracts struct {
 	Ghosts   map[string]*GhostDecl
 	Generate []*GenerateDecl
 	Files    []string
+	Guards   map[string]GuardDecl // "pkgpath::global" -> mutex
+}
+
+type GuardDecl struct {
+	Pkg, Global, Mutex string
+	Tags               []string
 }
 
 func newContracts() *Contracts {
-	return &Contracts{Funcs: map[string]*FuncContract{}, Specs: map[string]*SpecDecl{}, Ghosts: map[string]*GhostDecl{}}
+	return &Contracts{Funcs: map[string]*FuncContract{}, Specs: map[string]*SpecDecl{}, Ghosts: map[string]*GhostDecl{}, Guards: map[string]GuardDecl{}}
 }
 
 // classOverride: struct types (pkgname.Type) whose components belong to a class other than
 // their package's (e.g. per-call error objects are not part of the shared document).
 var classOverride = map[string]string{}
 
-var declKeywords = map[string]bool{"class": true, "func": true, "iface": true, "fnfield": true, "pred": true, "spec": true, "axiom": true,
+var declKeywords = map[string]bool{"guarded": true, "class": true, "func": true, "iface": true, "fnfield": true, "pred": true, "spec": true, "axiom": true,
 	"lemma": true, "ghost": true, "generate": true, "trusted": true}
 var clauseKeywords = map[string]bool{"requires": true, "ensures": true, "modifies": true, "panics_if": true, "loop": true,
 	"tag": true, "pure": true, "records": true, "preserves": true, "defines": true, "assuming": true, "fresh": true, "reads": true, "option": true, "nosafety": true}
@@ -379,6 +385,17 @@ func (cs *Contracts) loadContractFile(path, pkgPath string) error {
 				return fail("%v", err)
 			}
 			cs.Ghosts[f[1]] = &GhostDecl{Name: f[1], Pkg: pkgPath, Ty: ty}
+		case "guarded":
+			cur = nil
+			f := strings.Fields(rest)
+			if len(f) < 3 || f[1] != "by" {
+				return fail("expected: guarded <global> by <mutex> [@TAG...]")
+			}
+			g := GuardDecl{Pkg: pkgPath, Global: f[0], Mutex: f[2]}
+			for _, t := range f[3:] {
+				g.Tags = append(g.Tags, strings.TrimPrefix(t, "@"))
+			}
+			cs.Guards[pkgPath+"::"+f[0]] = g
 		case "class":
 			cur = nil
 			f := strings.Fields(rest)
